@@ -510,7 +510,7 @@ def check_C17(ctx):
 
 
 # ---- C04 / C13: per-test framework state -------------------------------------------------------
-FW_ACTS = ["P", "F", "MF", "MC", "ML", "MG", "CU", "EC", "G2", "G12", "D", "W", "P", "CU", "D"]
+FW_ACTS = ["P", "F", "MF", "MC", "ML", "MG", "CU", "EC", "G2", "G12", "D", "W", "P", "CU", "D", "QI"]
 
 
 def gen_fw_test(rng, name, allow_read_global):
@@ -614,8 +614,28 @@ def check_C04(ctx):
                                   "# two runs of the same tests in different orders / subsets (text reporter, forking mode)\n# run A:\n" + ref[name][1] + "\n# run B:\n" + s.text(),
                                   found_input=True, facts={"mode": "fork"})
                 ref.setdefault(name, (v, s.text()))
+    # the same orders as another reporter shows them: what CUTE says about a test (its status lines) does not depend on the order either
+    cobs = bench.run_many([(s.text(), "cute") for s in scens])
+    for g in groups:
+        ref = {}
+        for idx in g:
+            s, o = scens[idx], cobs[idx]
+            if status_of(o) not in ("0", "1"):
+                continue
+            per, cur = {}, None
+            for l in impl_proj(o, "cute"):
+                k, _, name = l.partition(" ")
+                if k == "starting": cur = name; per[name] = []
+                elif k in ("success", "failure", "error") and cur is not None and name == cur: per[name].append(k)
+            for name, v in per.items():
+                if name in ref and ref[name][0] != v and shown < 8:
+                    shown += 1
+                    ctx.violation(f"[C04] the CUTE reporter shows test {name} as {v} in one registration order and as {ref[name][0]} in another",
+                                  "# two runs of the same tests in different orders / subsets (CUTE reporter, forking mode)\n# run A:\n" + ref[name][1] + "\n# run B:\n" + s.text(),
+                                  found_input=True, facts={"mode": "fork", "rep": "cute"})
+                ref.setdefault(name, (v, s.text()))
     ctx.oblige("correspondence C04: model and implementation agree on every generated run", ndis == 0, f"{ndis} disagreements")
-    ctx.coverage["correspondence"] = {"cases": len(scens), "disagreements": ndis, "oracle_evaluations": len(scens)}
+    ctx.coverage["correspondence"] = {"cases": len(scens) * 2, "disagreements": ndis, "oracle_evaluations": len(scens) * 2}
     ctx.coverage["samples"] = sample_of(scens, 2)
     ctx.coverage["evaluations"] = len(scens)
     ctx.coverage["distinct_nontrivial"] = len({s.text() for s in scens})
@@ -1810,6 +1830,23 @@ def check_C09(ctx):
         libs.append((name, items))
         for pat in ["*:connects", "T*:connects", "*:x", "A*:x", "Al*:connects", "*:closes_fails", "*l*:x", "connects", "*"]:
             runs.append(([(name, pat)], rng.choice([[], ["-q"], ["--xml", "X"]])))
+    # a library whose tests nm can list but which the loader refuses (an undefined symbol): none of its tests can run, so the run fails
+    bname, bitems = "libbroken_tests.so", sorted(gen_library(rng, 4))
+    srcs = []
+    for c, text in library_sources(bname, bitems).items():
+        src = os.path.join(libdir, f"libbroken_{c}.c"); open(src, "w").write(text); srcs.append(src)
+    src = os.path.join(libdir, "libbroken_undefined.c")
+    open(src, "w").write("extern void cgreen_verif_no_such_function(void);\nvoid cgreen_verif_uses_it(void) { cgreen_verif_no_such_function(); }\n"); srcs.append(src)
+    r = sh(["gcc", "-shared", "-fPIC", "-w", f"-I{REPO}/include"] + srcs + ["-o", os.path.join(libdir, bname), f"-L{impl['dir']}", "-lcgreen"])
+    if r.returncode != 0:
+        raise BuildError("test library: " + r.stdout[-1500:])
+    unloadable = {bname}
+    for _ in range(sizes(ctx, 6, 40)):
+        chosen = rng.sample(libs[: min(len(libs), 14)], rng.choice([0, 1, 2]))
+        pairs = [(n, gen_pattern(rng, it) if rng.random() < 0.5 else None) for n, it in chosen]
+        pairs.insert(rng.randrange(len(pairs) + 1), (bname, gen_pattern(rng, bitems) if rng.random() < 0.3 else None))
+        runs.append((pairs, rng.choice([[], ["-q"], ["--xml", "X"]])))
+    libs.append((bname, bitems))
     libmap = dict(libs)
 
     def one(i_run):
@@ -1834,7 +1871,7 @@ def check_C09(ctx):
         results = list(pool.map(one, enumerate(runs)))
     blocks = []
     for pairs, opts in runs:
-        b = [f"lib {n} " + " ".join((f"{c}:{t}" if c != "default" else t) for c, t in it) for n, it in libs if any(n == l for l, _ in pairs)]
+        b = [f"lib {n} " + " ".join((f"{c}:{t}" if c != "default" else t) for c, t in (it if n not in unloadable else [])) for n, it in libs if any(n == l for l, _ in pairs)]
         args = []
         for l, p in pairs:
             args.append(l)
@@ -1866,6 +1903,8 @@ def check_C09(ctx):
         for l, p in opairs:
             if l not in libmap:
                 fail = True; break
+            if l in unloadable:
+                fail = True; continue      # discovered, but it cannot be loaded: nothing of it runs and the run fails
             sel = py_selected(libmap[l], p)
             if not sel: fail = True
             want += [f"{l}/{c}:{n}" for c, n in sel]
